@@ -183,6 +183,106 @@ theorem no_timeout_in_terminal :
     ∀ m ∈ GV.Gen.StateMaps.all, ∀ s ∈ m.states, s.agency = 0 → s.timeoutMs = 0 ∧ s.timeoutFunc = false := by
   decide
 
+/-! ### the closed form used for `armed` equals the timer model run -/
+
+def lastD : List Nat → Nat → Nat
+  | [], d => d
+  | x :: xs, _ => lastD xs x
+
+theorem statesAlong_last (m : Machine) (s q : Nat) (path : List Sym) (h : m.run s path = some q) :
+    lastD (statesAlong m s path) s = q := by
+  induction path generalizing s with
+  | nil => simp only [Machine.run, Option.some.injEq] at h; simp [statesAlong, lastD, h]
+  | cons a rest ih =>
+    simp only [Machine.run] at h
+    cases hs : m.step s a with
+    | none => simp [hs] at h
+    | some s' =>
+      rw [hs] at h
+      simp only [statesAlong, hs, lastD]
+      exact ih s' h
+
+theorem statesAlong_nonempty (m : Machine) (s q : Nat) (a : Sym) (rest : List Sym)
+    (h : m.run s (a :: rest) = some q) : statesAlong m s (a :: rest) ≠ [] := by
+  simp only [Machine.run] at h
+  cases hs : m.step s a with
+  | none => simp [hs] at h
+  | some s' => simp [statesAlong, hs]
+
+/-- after the start-up setState, a run of setStates leaves a timer iff the LAST state entered has a
+    positive effective timeout -/
+theorem run_setStates (c : Cfg) (fv : Nat → Nat) (qs : List Nat) (t : T)
+    (hf : t.fired = false) (hi : t.initialSet = true) :
+    ∃ t', run c t (qs.map (fun q => Ev.setState q (fv q))) = some t' ∧ t'.fired = false ∧
+      t'.initialSet = true ∧
+      t'.timer.isSome = (match qs with
+        | [] => t.timer.isSome
+        | x :: xs => decide (effTimeout c (lastD xs x) (fv (lastD xs x)) > 0)) := by
+  induction qs generalizing t with
+  | nil => exact ⟨t, by simp [run], hf, hi, rfl⟩
+  | cons q rest ih =>
+    simp only [List.map_cons, run, step?, hf, hi, Bool.false_eq_true, if_false, Bool.not_true]
+    obtain ⟨t', h1, h2, h3, h4⟩ := ih
+      (t := { st := q, now := t.now, initialSet := true,
+              timer := (if effTimeout c q (fv q) > 0 then some (t.now + effTimeout c q (fv q)) else none),
+              entered := t.now, entryInitial := false, armedWith := effTimeout c q (fv q) }) rfl rfl
+    refine ⟨t', h1, h2, h3, ?_⟩
+    rw [h4]
+    cases rest with
+    | nil =>
+      simp only [lastD]
+      by_cases hp : effTimeout c q (fv q) > 0 <;> simp [hp]
+    | cons x xs => simp [lastD]
+
+theorem stOf_func_pos (m : Machine)
+    (hfn : ∀ s ∈ m.states, s.timeoutFunc = true → s.tfMaxMs > 0) (q : Nat)
+    (h : (stOf m q).timeoutFunc = true) : (stOf m q).tfMaxMs > 0 := by
+  unfold stOf at h ⊢
+  cases hq : m.stateOf q with
+  | none => rw [hq] at h; simp at h
+  | some st =>
+    rw [hq] at h
+    simp only [Option.getD_some] at h ⊢
+    exact hfn st (by unfold Machine.stateOf at hq; exact List.mem_of_find?_eq_some hq) h
+
+/-- `arms` (used for the `armed` column) is exactly what the timer model computes, provided a
+    TimeoutFunc never returns 0 (checked on the regenerated tables below). -/
+theorem arms_eq_model (m : Machine)
+    (hfn : ∀ s ∈ m.states, s.timeoutFunc = true → s.tfMaxMs > 0)
+    (path : List Sym) (q : Nat) (h : m.run m.init path = some q) :
+    (timerAfter m path).map (fun t => t.timer.isSome) = some (arms m q path.isEmpty) := by
+  unfold timerAfter
+  simp only [run, step?, init, Bool.false_eq_true, if_false, Bool.not_false, if_true]
+  cases path with
+  | nil => simp [statesAlong, run, arms]
+  | cons a rest =>
+    have hne := statesAlong_nonempty m m.init q a rest h
+    have hlast := statesAlong_last m m.init q (a :: rest) h
+    obtain ⟨t', h1, _, _, h4⟩ := run_setStates (cfgOf m) (funcValue m) (statesAlong m m.init (a :: rest))
+      { st := m.init, now := 0, initialSet := true, timer := none, entered := 0, entryInitial := true,
+        armedWith := 0, fired := false } rfl rfl
+    rw [h1]
+    simp only [Option.map_some, Option.some.injEq, List.isEmpty_cons]
+    rw [h4]
+    cases hsa : statesAlong m m.init (a :: rest) with
+    | nil => exact absurd hsa hne
+    | cons x xs =>
+      rw [hsa] at hlast
+      simp only [lastD] at hlast
+      simp only [hlast]
+      -- effective timeout of q is positive iff q has a timeout at all
+      have key := stOf_func_pos m hfn q
+      unfold effTimeout cfgOf funcValue arms
+      simp only [Bool.not_false, Bool.true_and]
+      by_cases hft : (stOf m q).timeoutFunc = true
+      · have := key hft; simp [hft, this]
+      · have hf' : (stOf m q).timeoutFunc = false := by simpa using hft
+        simp [hf']
+
+/-- no TimeoutFunc of the running code returns 0 (sampled maximum, rounded up to seconds) -/
+theorem gen_timeoutFunc_positive :
+    ∀ m ∈ GV.Gen.StateMaps.all, ∀ s ∈ m.states, s.timeoutFunc = true → s.tfMaxMs > 0 := by decide
+
 /-! ### non-vacuity -/
 def cfgEx : Cfg := { timeoutOf := fun q => if q = 2 then 10 else 0, hasFunc := fun _ => false }
 example : ((run cfgEx (init 1) [.setState 1 0, .tick 100, .setState 2 0, .tick 10, .fire]).map (·.fired)) = some true := by
